@@ -696,6 +696,15 @@ int main(int argc, char **argv)
 		if (!bad) {
 			uint64_t sd = FNV_INIT;
 			const char *q = strrchr(argv[a], '/');
+			/* a restart position and a 0xff order in a format without markers: the player modes that set
+			 * QUIRK_MARKER turn that order into an end marker (regression: 4bf9f85) */
+			int marker_mode_matters = 0;
+			if (!(m->quirk & QUIRK_MARKER) && mod->rst != 0) {
+				for (i = 0; i < mod->len; i++) {
+					if (mod->xxo[i] == 0xff)
+						marker_mode_matters = 1;
+				}
+			}
 			for (q = q ? q + 1 : argv[a]; *q; q++)
 				sd = (sd ^ (uint64_t)(unsigned char)*q) * 0x100000001b3ULL;
 			tour(opaque, rate, maxframes, sd ^ (uint64_t)mod->len * 977u);
@@ -710,8 +719,16 @@ int main(int argc, char **argv)
 				int is_it = n > 3 && strcmp(argv[a] + n - 3, ".it") == 0;
 				run_cfg(argv[a], CFG_CFLAGS_VBLANK, 0, rate, maxframes);
 				run_cfg(argv[a], (sd >> 8) & 1 ? CFG_CFLAGS_OFF : CFG_FLAGS_LOAD, 0, rate, maxframes);
-				run_cfg(argv[a], CFG_MODE, getenv("C18_CFG_MODE") ? atoi(getenv("C18_CFG_MODE")) : 1 + (int)((sd >> 16) % 10),
-					rate, maxframes);	/* C18_CFG_MODE: replay of a recorded failure */
+				static const int mmode[4] = { XMP_MODE_S3M, XMP_MODE_ST3, XMP_MODE_ST3GUS, XMP_MODE_IT };
+				if (strstr(argv[a], "/corpus/") != NULL) {
+					int md;		/* regression inputs: every player mode */
+					for (md = 1; md <= 10; md++)
+						run_cfg(argv[a], CFG_MODE, md, rate, maxframes);
+				} else {
+					run_cfg(argv[a], CFG_MODE, getenv("C18_CFG_MODE") ? atoi(getenv("C18_CFG_MODE")) :
+						marker_mode_matters ? mmode[(sd >> 16) % 4] : 1 + (int)((sd >> 16) % 10),
+						rate, maxframes);	/* C18_CFG_MODE: replay of a recorded failure */
+				}
 				run_cfg(argv[a], CFG_VOICES, is_it ? 1 : voc[(sd >> 24) % 3], rate, maxframes);
 				if (is_it)
 					run_cfg(argv[a], CFG_VOICES, voc[1 + ((sd >> 24) & 1)], rate, maxframes);
